@@ -413,11 +413,25 @@ func runC05(c *Ctx, idx int, o *Obs) {
 		if len(ogNames) > 0 && len(ogNames) < len(all) {
 			cmds = append(cmds, append([]string{"reroot", "outgroup", "-i", f}, ogNames...))
 		}
-		for _, cl := range cmds {
-			res := runCLI(c, "", cl...)
-			o.Ev("cli:"+cl[0]+" "+cl[1], 1)
-			what := "gotree " + cl[0] + " " + cl[1] + " on a file of " + fmt.Sprint(len(texts)) + " trees"
-			if cl[1] == "outgroup" {
+		inArgs, inStdin, inMode := presentTrees(c, r, "c05multi-alt", texts, false)
+		o.Ev("cli_input:"+inMode, 1)
+		for _, cl0 := range cmds {
+			var cl []string
+			for i := 0; i < len(cl0); i++ {
+				if cl0[i] == "-i" && i+1 < len(cl0) && cl0[i+1] == f {
+					cl = append(cl, inArgs...)
+					i++
+					continue
+				}
+				cl = append(cl, cl0[i])
+			}
+			if cl0[1] == "outgroup" && inMode == "stdin" {
+				cl = cl0 // positional tip names after the options: keep the file form
+			}
+			res := runCLI(c, inStdin, cl...)
+			o.Ev("cli:"+cl0[0]+" "+cl0[1], 1)
+			what := "gotree " + cl0[0] + " " + cl0[1] + " (input: " + inMode + ") on a file of " + fmt.Sprint(len(texts)) + " trees"
+			if cl0[1] == "outgroup" {
 				// the outgroup only exists in the first tree: the command stops at the second one; judge the first line
 				if res.Panic || res.Signal {
 					o.Fail("cli_crash", what+": "+res.brief(), inp)
@@ -445,10 +459,10 @@ func runC05(c *Ctx, idx int, o *Obs) {
 				}
 				after := reduce(modelOf(ct), true)
 				d := sameTree(reds[i], after, false)
-				if !o.Check(d == "", "cli_"+cl[1], fmt.Sprintf("%s, tree %d: %s", what, i, d), inp+" => "+Trunc(ln, 800), "op", "cli") {
+				if !o.Check(d == "", "cli_"+cl0[1], fmt.Sprintf("%s, tree %d: %s", what, i, d), inp+" => "+Trunc(ln, 800), "op", "cli") {
 					break
 				}
-				switch cl[1] {
+				switch cl0[1] {
 				case "midpoint":
 					D := 0.0
 					for _, v := range reds[i].dist {
